@@ -271,6 +271,8 @@ func MavenCompareAliasAlways(a, b string) int {
 
 var mvConv = regexp.MustCompile(`^[0-9]+(?:\.[0-9]+){0,3}(?:([.-])([A-Za-z]+)(?:([.-]?)([0-9]+))?|-[0-9]+)?$`)
 
+var mvZeroRun = regexp.MustCompile(`(^|[^0-9])0{10,}($|[^0-9])`)
+
 // MavenConventional reports whether s has the conventional shape claimed by
 // C12: N(.N){0,3} plus at most one group (qualifier, qualifier with number, or
 // "-N"); bare single-letter aliases (a/b/m not directly followed by a digit)
@@ -278,6 +280,12 @@ var mvConv = regexp.MustCompile(`^[0-9]+(?:\.[0-9]+){0,3}(?:([.-])([A-Za-z]+)(?:
 func MavenConventional(s string) bool {
 	m := mvConv.FindStringSubmatch(s)
 	if m == nil {
+		return false
+	}
+	// a run of ten or more zeros is not conventional: ComparableVersion keeps it at full length and makes it a
+	// LongItem / BigIntegerItem, which it orders above every int-sized number ("0000000000.1" > "1"); go-univers
+	// reads it as 0 and C12 does not claim that quirk
+	if mvZeroRun.MatchString(s) {
 		return false
 	}
 	w := strings.ToLower(m[2])
